@@ -225,7 +225,8 @@ def seqLoop (cfg : Cfg) : Nat → Char → It → SeqSt → Option (It × SeqSt)
           { st with res := .dash :: st.res, escapeHyphen := it.idx + 1, endRange := it.idx }
         else if st.endRange != 0 && it.idx - 1 ≥ st.endRange then
           let (res, rm) := seqRangeCheck cfg.isBytes st.res (.chr '-' true)
-          { st with res := res, removed := st.removed || rm, endRange := 0 }
+          -- the range is resolved: the very next character cannot be an operator (fix: D29)
+          { st with res := res, removed := st.removed || rm, endRange := 0, escapeHyphen := it.idx }
         else { st with res := .chr '-' true :: st.res }
       match it.next with
       | none => none
@@ -262,7 +263,8 @@ def seqLoop (cfg : Cfg) : Nat → Char → It → SeqSt → Option (It × SeqSt)
           let st :=
             if st.endRange != 0 && it.idx - 1 ≥ st.endRange then
               let (res, rm) := seqRangeCheck cfg.isBytes st.res value
-              { st with res := res, removed := st.removed || rm, endRange := 0 }
+              -- `it` is the iterator after the member, however long its spelling was (fix: D29)
+              { st with res := res, removed := st.removed || rm, endRange := 0, escapeHyphen := it.idx }
             else { st with res := value :: st.res }
           match it.next with
           | none => none
